@@ -48,14 +48,17 @@ var (
 	certA = fill(300, 0x30) // two "certificates" of equal DER length
 	certB = fill(300, 0x81)
 	certC = fill(411, 0x55) // another length
+	certS = append(fill(299, 0x11), 0x20) // DER whose last byte happens to be a space
+	certN = append(append([]byte{0x0a}, fill(298, 0x12)...), 0x0a) // ... first and last byte a line feed
 	datas = [][]byte{
 		fill(32, 1), fill(32, 2), fill(32, 3), fill(32, 4), // 32-byte hashes
 		fill(31, 5), fill(33, 6), // wrong-size hashes
 		certA, certB, certC, // DER
 		pemOf(certA), pemOf(certB), pemOf(certC), // the same as PEM
 		fill(20, 7), fill(48, 8), // SHA-1 / SHA-384 sized values
+		certS, certN, pemOf(certS),
 	}
-	dataNames = []string{"h32a", "h32b", "h32c", "h32d", "h31", "h33", "derA300", "derB300", "derC411", "pemA", "pemB", "pemC", "v20", "v48"}
+	dataNames = []string{"h32a", "h32b", "h32c", "h32d", "h31", "h33", "derA300", "derB300", "derC411", "pemA", "pemB", "pemC", "v20", "v48", "derS300", "derN300", "pemS"}
 )
 
 type Op struct {
